@@ -281,7 +281,8 @@ func init() {
 		"commands: get / gete of 1-3 keys over 2 keys (duplicates, every quiet pattern), set, touch with relative TTL (the transparent retry is at-least-once by design: non-idempotent commands are outside the bound)",
 	}, batchedAssumptions...),
 		Quick: []Job{bjob("ZZBatchedConnLoss", "", nil, []string{"call-returned", "connection-was-cut", "pool-serves-again"}, "one caller, pool of one connection, batch size 1: exactly one outcome per call -- an error, or every requested key answered exactly once with its own data after the transparent retry; afterwards the pool serves a further get correctly"),
-			bjob("ZZBatchedConnLossTwo", "", nil, []string{"both-callers-returned", "connection-was-cut", "pool-serves-again"}, "two callers in one batch (A: delete/touch/add/replace/gat on key 0, any presence; B: get key 1), connection cut before / after / inside the second or third reply: both callers return, B gets an error or its own data, the pool serves again")},
+			bjob("ZZBatchedConnLossTwo", "", nil, []string{"both-callers-returned", "connection-was-cut", "pool-serves-again"}, "two callers in one batch (A: delete/touch/add/replace/gat on key 0, any presence; B: get key 1), connection cut before / after / inside the second or third reply: both callers return, B gets an error or its own data, the pool serves again"),
+			bjob("ZZBatchedSlowConsumer", "", nil, []string{"get-ended"}, "a 3-key get with a consumer that takes each response only when nothing else can move; the connection is cut after the first reply of both attempts: an error or all three keys, never a partial answer without an error")},
 		Thorough: []Job{bjob("ZZBatchedConnLoss", "connloss-batch2", map[string]int64{"batchsize": 2, "faultpositions": 4}, []string{"call-returned", "connection-was-cut", "pool-serves-again"}, "batch size 2, fault index 0..3")}})
 
 	reg(Check{ID: "C11", Level: "model_checking", Assumptions: append([]string{
